@@ -35,7 +35,7 @@ LEVEL = "proof"
 MODULE = "Sqfs.Props.C02"
 EXTRA_THEOREMS = ("stateful_pool_is_pure", "schedule_independent_stateful", "stateful_worker_schedule_dependent",
                   "script_schedule_independent", "failure_deterministic_partial", "failed_item_back_status_nonzero",
-                  "run_eq_specPack", "threaded_eq_specPack", "threaded_readback", "threaded_directives")
+                  "run_eq_specPack", "threaded_eq_specPack", "threaded_readback", "threaded_directives", "tree_order_bytewise")
 REQUIRED = ["Sqfs.C02." + t for t in (
     "run_eq_spec", "backlog_independent", "run_ok", "dequeue_never_internal_error", "finish_writes_everything",
     "realised_eq_serial", "schedule_independent", "jobs_independent", "times_depend_only_on_source_date_epoch",
@@ -309,6 +309,15 @@ def unit_level(ctx, stats):
             feat[fx] = feat.get(fx, 0) + 1
         if features(w, want) & {"fragment-block-overflow", "fragment-dedup-hit", "file-dedup-hit", "sparse", "multi-block-file"}:
             nontrivial.add(wi)
+    TRACE_KEYS = ("steps", "dl", "mtx", "sub", "fifo", "ovt", "ord", "maxq")
+    untraced = [l for l, a in list(zip(lines, impl)) + list(zip(ref_lines, ref)) if a != "<no output>" and any(k not in split_result(a)[1] for k in TRACE_KEYS)]
+    if untraced:
+        # without the trace (the link-time wrapper of thread_pool_create no longer binds, a field was dropped) the FIFO, dead-lock and
+        # mutex verdicts below would default to "fine": not a pass
+        bad += len(untraced)
+        ctx.violation("infra:unit-trace-missing", "%d harness runs came back without the complete pool trace (%s): the instrumentation "
+                      "(-Wl,--wrap=thread_pool_create, controlled scheduler) is not in effect" % (len(untraced), ",".join(TRACE_KEYS)),
+                      {"kind": "unit", "line": untraced[0], "serial_line": untraced[0]}, found_input=False)
     for l, (wi, workers, mb, policy), a in zip(lines, meta, impl):
         canon, tr = split_result(a)
         want = split_result(ref[wi * nref])[0]
@@ -771,13 +780,38 @@ def build_tools(ctx, stats):
                        for t in TOOLS}
         stats["tsan_build"] = "ok"
     except vlib.CheckFailure as e:
+        # ThreadSanitizer is the only evidence for data-race freedom of the pool's lock-free main-thread fields: no TSan, no pass
         stats["tsan_build"] = "not available: %s" % str(e)[:200]
+        ctx.violation("infra:tsan-unavailable", "the ThreadSanitizer build of the packers cannot be produced (%s): data-race freedom is not "
+                      "exercised at all" % str(e)[:300], {"kind": "infra", "error": str(e)[:2000]}, found_input=False)
     shim = ctx.scratch / "shim_c02_time.so"
     r = vlib.sh(["gcc", "-O1", "-shared", "-fPIC", "-w", str(vlib.HARNESS / "shim_c02_time.c"), "-o", str(shim), "-ldl"])
     if r.returncode != 0:
         raise vlib.CheckFailure("cannot build shim_c02_time.so: " + r.stderr[-1000:])
     out["timeshim"] = shim
+    # locale / time zone / environment shim (harness/shim_c02_locale.c) and the proof that it is bound and answers as documented
+    lshim = ctx.scratch / "shim_c02_locale.so"
+    r = vlib.sh(["gcc", "-O1", "-shared", "-fPIC", "-w", str(vlib.HARNESS / "shim_c02_locale.c"), "-o", str(lshim), "-ldl"])
+    if r.returncode != 0:
+        raise vlib.CheckFailure("cannot build shim_c02_locale.so: " + r.stderr[-1000:])
+    st = ctx.scratch / "c02_locale_selftest"
+    r = vlib.sh(["gcc", "-O1", "-w", str(vlib.HARNESS / "c02_locale_selftest.c"), "-o", str(st)])
+    if r.returncode != 0:
+        raise vlib.CheckFailure("cannot build c02_locale_selftest: " + r.stderr[-1000:])
+    e = dict(os.environ)
+    e.update({"LD_PRELOAD": str(lshim), "C02_LOCALE_HOSTILE": "1", "C02_LOCALE_LOG": str(ctx.scratch / "c02_locale_selftest.log"), "TZ": "UTC"})
+    r = vlib.sh([str(st)], env=e, timeout=60)
+    want = "before=1 ci_before=1 locale=xx_XX.HOSTILE after=0 punct=1 ci_after=0 lowerI=253 alphaE9=1 dp=, hour=13 min=45 tz=UTC"
+    log = read_locale_log(ctx.scratch / "c02_locale_selftest.log")
+    if r.stdout.strip() != want or log.get("strcoll") != "3" or log.get("setlocale") != "1" or log.get("active") != "111":
+        raise vlib.CheckFailure("the locale shim is not in effect: self test printed %r (want %r), log %r" % (r.stdout.strip(), want, log))
+    out["localeshim"] = lshim
+    stats["locale_shim_selftest"] = r.stdout.strip()
     return out
+
+
+NAME_HEADS = ["f", "F", "a", "B", "Z", "_", "-", ".x", "~", "A", "b", "é", "É", "İ", "ı", "I", "i", "ÿ", "ß", "Ω", "a-", "a_", "ab",
+              "\udcff", "\udce9x", "\udcdd", "\udcfd"]          # the last four: raw Latin-1 / Latin-5 bytes (not UTF-8)
 
 
 def gen_tree(rng, root, B, nfiles):
@@ -786,8 +820,10 @@ def gen_tree(rng, root, B, nfiles):
     files = []
     names = []
     for i in range(nfiles):
-        d = rng.choice(["", "a", "a/b", "c"])
-        name = (d + "/" if d else "") + "f%03d_%s" % (i, rng.choice(["x", "y", "zz"]))
+        # names whose strcmp order differs from what a collating / case-folding / Turkish locale would say: mixed case, leading
+        # punctuation (ignored at the first collation level), UTF-8 letters, dotted / dotless i, Latin-1 high bytes
+        d = rng.choice(["", "a", "a/b", "c", "B", "a/É"])
+        name = (d + "/" if d else "") + "%s%03d_%s" % (rng.choice(NAME_HEADS), i, rng.choice(["x", "Y", "zz", "I", "ı"]))
         r = rng.random()
         if files and r < 0.12:
             data = rng.choice(files)[1]
@@ -837,7 +873,7 @@ def make_inputs(ctx, rng, quick, idx):
                 dirs.add(dd)
                 lines.append("dir /%s 0755 0 0" % dd)
         lines.append("file /%s 0644 %d %d %s" % (name, rng.choice([0, 1000]), rng.choice([0, 100]), root / name))
-    (d / "pack.txt").write_text("\n".join(lines) + "\n")
+    (d / "pack.txt").write_bytes(os.fsencode("\n".join(lines) + "\n"))
     bio = io.BytesIO()
     with tarfile.open(fileobj=bio, mode="w", format=tarfile.GNU_FORMAT) as tf:
         t = 1400000000
@@ -897,6 +933,20 @@ def sha_file(p):
         return "<no image>"
 
 
+def read_locale_log(p):
+    try:
+        return dict(kv.split("=", 1) for kv in Path(p).read_text().split())
+    except Exception:
+        return {}
+
+
+def installed_locales():
+    try:
+        return sorted(set(subprocess.run(["locale", "-a"], capture_output=True, text=True, timeout=30).stdout.split()))
+    except Exception:
+        return []
+
+
 def read_trace(p):
     try:
         return dict(kv.split("=") for kv in Path(p).read_text().split())
@@ -925,16 +975,22 @@ def tool_level(ctx, stats):
     overtakes = 0
     worker_counts = set()
     xopts_seen = set()
-    handoffs = 0
+    comps_seen = set()
+    handoffs = delays = untraced = unperturbed = 0
+    loc = {"runs": 0, "image_mismatches": 0, "calls": {}, "setlocale_args": set(), "env_names": set(), "log_missing": 0}
     tsan_runs = tsan_reports = 0
     time_calls = 0
     samples = []
     ncpu = len(os.sched_getaffinity(0))
     for ci in range(ncases):
         inp = make_inputs(ctx, input_rng(ctx.seed, ctx.tier, ci), quick, ci)
-        comps = ["gzip"] if quick else ["gzip", rng.choice(["xz", "zstd", "lz4", "lzma"])]
-        for comp in comps:
-            for flavour in flavours:
+        # quick: one compressor per (input set, flavour), rotating so that every compiled-in compressor is used (gzip three times);
+        # thorough: gzip and a second, rotating compressor on every flavour
+        plan = [(COMPRESSORS[(ci * len(flavours) + fi) % len(COMPRESSORS)], fl) for fi, fl in enumerate(flavours)] if quick else \
+               [(c, fl) for c in ("gzip", COMPRESSORS[1 + ci % (len(COMPRESSORS) - 1)]) for fl in flavours]
+        for comp, flavour in plan:
+            if True:                                  # (one compressor per flavour; keeps the body's indentation)
+                comps_seen.add(comp)
                 # compressor options (-X: gzip strategies / level / window, xz filters / dictsize / lc lp pb, lz4 hc, zstd level) and -T
                 # (a file larger than a block gets a short last *data* block instead of a tail end): per-worker compressor state
                 # can only leak where the options make do_block do something that depends on them
@@ -996,8 +1052,13 @@ def tool_level(ctx, stats):
                     got = sha_file(out)
                     runs += 1
                     tr = read_trace(trace)
+                    if rc == 0 and not all(k in tr for k in ("submitted", "fifo", "workers", "perturb", "delays")):
+                        untraced += 1
+                    elif rc == 0 and tr.get("perturb") != "1":
+                        unperturbed += 1
                     if tr:
                         handoffs += int(tr.get("handoffs", "0"))
+                        delays += int(tr.get("delays", "0"))
                         orders.setdefault((ci, comp, flavour), set()).add(tr.get("order"))
                         if int(tr.get("overtakes", "0")) > 0:
                             overtakes += 1
@@ -1025,6 +1086,43 @@ def tool_level(ctx, stats):
                     if len(samples) < 3:
                         samples.append("%s | env TZ=%s LC_ALL=%s umask=%o cwd=%s %s" % (" ".join(prefix + cmd)[-200:], env["TZ"], env["LC_ALL"], umask, cwd,
                                                                                         "faketime=" + env.get("C02_FAKE_TIME", "-")))
+                # a hostile locale / time zone behind the locale-sensitive entry points of libc (harness/shim_c02_locale.c): the image must
+                # not change, whatever setlocale / strcoll / strcasecmp / the ctype tables / localeconv / localtime answer
+                out = ctx.scratch / "c02_out.sqfs"
+                if out.exists():
+                    out.unlink()
+                llog = ctx.scratch / "c02_locale.log"
+                if llog.exists():
+                    llog.unlink()
+                lextra = ["-j", str(rng.choice([1, 2, 4]))]
+                cmd, stdin = tool_cmd(builds, "plain", flavour, inp, out, comp, common + lextra)
+                lenv = {"SOURCE_DATE_EPOCH": SDE, "LD_PRELOAD": str(builds["localeshim"]), "C02_LOCALE_HOSTILE": "1", "C02_LOCALE_LOG": str(llog),
+                        "LC_ALL": "tr_TR.ISO-8859-9", "LANG": "tr_TR.ISO-8859-9", "LC_COLLATE": "de_DE.UTF-8", "TZ": "Pacific/Chatham"}
+                rc, err = run_tool(ctx, cmd, stdin, lenv, str(ctx.scratch), 0o022, [])
+                got = sha_file(out)
+                runs += 1
+                loc["runs"] += 1
+                ll = read_locale_log(llog)
+                if not ll or "strcoll" not in ll:
+                    loc["log_missing"] += 1
+                for k, v in ll.items():
+                    if v.isdigit() and k not in ("hostile", "active"):
+                        loc["calls"][k] = loc["calls"].get(k, 0) + int(v)
+                loc["setlocale_args"].update(x for x in ll.get("setlocale_args", "-").split(",") if x and x != "-")
+                loc["env_names"].update(x for x in ll.get("env_names", "-").split(",") if x and x != "-")
+                if rc != 0 or got != ref:
+                    loc["image_mismatches"] += 1
+                    bad += 1
+                    if bad <= 6:
+                        ctx.violation("tool-locale:" + vlib.sha(" ".join(cmd))[:12],
+                                      "%s (%s, %s) under a hostile locale / time zone (LD_PRELOAD shim: setlocale accepted, strcoll reversed and case folded, "
+                                      "Turkish case mapping, ',' as decimal point, UTC+13:45): %s; locale-sensitive calls made: %s" % (
+                                          Path(cmd[0]).name, flavour, comp,
+                                          "packer failed (rc=%s): %s" % (rc, err[-300:]) if rc != 0 else "image differs from the reference image",
+                                          {k: v for k, v in ll.items() if v.isdigit() and int(v) > 0 and k not in ("getenv", "hostile", "active")}),
+                                      {"kind": "tool", "seed": ctx.seed, "tier": ctx.tier, "case": ci, "flavour": flavour, "comp": comp,
+                                       "variant": "plain", "extra": lextra, "common": common, "env": lenv, "umask": 0o022, "cwd": str(ctx.scratch),
+                                       "prefix": [], "stderr": err[-1500:]})
                 # SOURCE_DATE_EPOCH unset, two different wall clocks: the images must not differ (nothing reads the clock)
                 shas = []
                 for ft in ("1", "2000000000"):
@@ -1036,10 +1134,14 @@ def tool_level(ctx, stats):
                     env_full = ctx.san_env(e)
                     env_full.pop("SOURCE_DATE_EPOCH", None)
                     f = open(stdin, "rb") if stdin else subprocess.DEVNULL
-                    r = subprocess.run(cmd, stdin=f, stdout=subprocess.PIPE, stderr=subprocess.PIPE, env=env_full, cwd=str(ctx.scratch))
+                    try:
+                        r = subprocess.run(cmd, stdin=f, stdout=subprocess.PIPE, stderr=subprocess.PIPE, env=env_full, cwd=str(ctx.scratch), timeout=600)
+                        rc_clock = r.returncode
+                    except subprocess.TimeoutExpired:
+                        rc_clock = -999
                     if stdin:
                         f.close()
-                    shas.append((r.returncode, sha_file(out)))
+                    shas.append((rc_clock, sha_file(out)))
                     runs += 1
                 if shas[0] != shas[1] or shas[0][0] != 0:
                     bad += 1
@@ -1079,13 +1181,42 @@ def tool_level(ctx, stats):
                                            "variant": "tsan", "extra": extra, "common": common, "env": env, "umask": 0o022, "cwd": str(ctx.scratch), "prefix": [],
                                            "stderr": err[-1500:]})
         shutil.rmtree(inp["dir"], ignore_errors=True)
+    # instrumentation that silently stopped working is not a pass
+    if untraced or unperturbed or (runs and delays == 0) or loc["log_missing"]:
+        bad += 1
+        ctx.violation("infra:tool-instrumentation-missing",
+                      "tool level: %d successful runs left no complete pool trace (the -Wl,--wrap=thread_pool_create wrapper is not bound), %d runs did "
+                      "not see the scheduling perturbation, %d delays were applied in total, %d runs under the locale shim left no call log" % (
+                          untraced, unperturbed, delays, loc["log_missing"]),
+                      {"kind": "infra", "untraced": untraced, "unperturbed": unperturbed, "delays": delays, "locale_log_missing": loc["log_missing"]},
+                      found_input=False)
+    missing = [c for c in COMPRESSORS if c not in comps_seen]
+    if missing:
+        bad += 1
+        ctx.violation("infra:compressor-not-covered", "tool level: compressors never used: %s" % missing, {"kind": "infra", "missing": missing}, found_input=False)
+    avail = installed_locales()
+    stats["locale"] = {
+        "installed_locales": avail,
+        "LC_ALL_values_that_are_really_another_locale": [v for v in ENV_CHOICES["LC_ALL"] if v in avail and v not in ("C", "POSIX", "C.utf8", "C.UTF-8")],
+        "note": "LC_ALL values that are not installed fall back to the C locale; a non-C locale is therefore emulated by harness/shim_c02_locale.c "
+                "(hostile collation / case mapping / ctype / decimal point / time zone behind setlocale, strcoll, strxfrm, strcasecmp, the ctype "
+                "tables, localeconv, localtime, mktime)",
+        "selftest": stats.get("locale_shim_selftest"), "runs_under_hostile_shim": loc["runs"], "image_mismatches": loc["image_mismatches"],
+        "calls_recorded": dict(sorted(loc["calls"].items())),
+        "locale_sensitive_calls_made": {k: v for k, v in sorted(loc["calls"].items()) if v > 0 and k not in ("getenv", "umask", "getcwd")},
+        "setlocale_arguments": sorted(loc["setlocale_args"]), "environment_variables_asked_for": sorted(loc["env_names"]),
+        "name_heads": NAME_HEADS}
+    if not quick:
+        bad += big_case(ctx, builds, stats)
+        runs += 3
     sde_bad = sde_level(ctx, builds, stats)
     stats["tool"] = {
         "runs": runs, "input_sets": ncases, "flavours": flavours, "jobs": [str(j) for j in jobs_list], "backlogs": [str(q) for q in q_list],
         "image_mismatches": bad, "distinct_completion_orders": sum(len(v) for v in orders.values()),
         "configurations_with_more_than_one_completion_order": sum(1 for v in orders.values() if len(v) > 1),
         "runs_with_overtaking_blocks": overtakes, "consecutive_blocks_started_by_different_workers": handoffs,
-        "compressor_options": sorted(xopts_seen)[:40], "worker_counts_seen": sorted(worker_counts, key=lambda x: int(x or 0)),
+        "compressor_options": sorted(xopts_seen)[:40], "compressors_used": sorted(comps_seen), "perturbation_delays_applied": delays,
+        "locale": stats.get("locale", {}), "data_area_beyond_4GiB": stats.get("big", "thorough tier only"), "worker_counts_seen": sorted(worker_counts, key=lambda x: int(x or 0)),
         "tsan_build": stats.get("tsan_build"), "tsan_runs": tsan_runs, "tsan_reports": tsan_reports,
         "clock_reads_intercepted": time_calls, "source_date_epoch_cases": stats.get("sde_cases", 0),
         "environment": "TZ x LC_ALL x umask x cwd x CPU affinity (taskset) x faked clock (LD_PRELOAD) x SOURCE_DATE_EPOCH fixed",
@@ -1093,6 +1224,74 @@ def tool_level(ctx, stats):
     stats["evaluations"] += runs
     stats["disagreements"] += bad + tsan_reports + sde_bad
     stats["samples"] += samples
+
+
+
+def sha_file_big(p):
+    try:
+        h = hashlib.sha256()
+        with open(p, "rb") as f:
+            while True:
+                b = f.read(1 << 24)
+                if not b:
+                    break
+                h.update(b)
+        return h.hexdigest()
+    except OSError:
+        return "<no image>"
+
+
+def big_case(ctx, builds, stats, replay_only=None):
+    """thorough tier: a data area beyond 4 GiB.  One 4.3 GiB file of incompressible data (a 64 MiB pseudo-random chunk repeated: there is
+    no block-level de-duplication, lz4 stores every block raw), then a two-block file whose blocks start beyond 2^32 and a tail end whose
+    fragment block lies beyond 2^32; serial-pool build vs. threaded runs.  -> number of mismatches"""
+    import random, struct
+    t0 = time.time()
+    d = ctx.scratch / "c02big"
+    if d.exists():
+        shutil.rmtree(d)
+    (d / "root").mkdir(parents=True)
+    rng = random.Random("C02/big")
+    chunk = rng.randbytes(64 << 20)
+    with open(d / "root" / "a_big", "wb") as f:
+        for _ in range(69):
+            f.write(chunk)
+        f.write(chunk[:12345])
+    (d / "root" / "b_small").write_bytes(rng.randbytes(200000))
+    (d / "root" / "c_tail").write_bytes(b"tail end beyond four gigabytes\n")
+    for n, t in (("a_big", 1500000001), ("b_small", 1500000002), ("c_tail", 1500000003), ("", 1500000004)):
+        os.utime(d / "root" / n if n else d / "root", (t, t))
+    size = os.path.getsize(d / "root" / "a_big")
+    configs = [("serial", [], {}), ("plain", ["-j", "4"], {"C02_PERTURB_SEED": "7", "C02_PERTURB_MODE": "2"}),
+               ("plain", ["-j", "2", "-Q", "3"], {"C02_PERTURB_SEED": "8", "C02_PERTURB_MODE": "0", "C02_PERTURB_US": "200"})]
+    shas, bad = [], 0
+    bytes_used = None
+    for variant, extra, env in configs:
+        out = d / "out.sqfs"
+        if out.exists():
+            out.unlink()
+        cmd = [str(builds[variant]["gensquashfs"]), "-q", "-f", "-c", "lz4", "-b", "1048576", "-D", str(d / "root")] + extra + [str(out)]
+        e = {"SOURCE_DATE_EPOCH": SDE}
+        e.update(env)
+        rc, err = run_tool(ctx, cmd, None, e, str(ctx.scratch), 0o022, [], timeout=1800)
+        sha = sha_file_big(out)
+        shas.append((rc, sha))
+        try:
+            with open(out, "rb") as f:
+                f.seek(40)
+                bytes_used = struct.unpack("<Q", f.read(8))[0]
+        except Exception:
+            bytes_used = None
+        if rc != 0 or sha != shas[0][1] or bytes_used is None or bytes_used <= (1 << 32):
+            bad += 1
+            ctx.violation("tool-big:" + vlib.sha(" ".join(extra) + variant)[:12],
+                          "data area beyond 4 GiB (one %d byte file of incompressible data, -c lz4 -b 1M): %s %s: rc=%s, image %s, bytes_used=%s" % (
+                              size, variant, " ".join(extra), rc, "equals the serial-pool build's" if sha == shas[0][1] else "differs from the serial-pool build's", bytes_used),
+                          {"kind": "tool-big", "variant": variant, "extra": extra, "env": env, "stderr": err[-1500:]})
+    shutil.rmtree(d, ignore_errors=True)
+    stats["big"] = {"input_bytes": size, "bytes_used": bytes_used, "runs": len(configs), "mismatches": bad, "sha256": shas[0][1][:16], "wall_s": round(time.time() - t0, 1),
+                    "what": "4.3 GiB of stored data; the second file's blocks and the fragment block lie beyond 2^32"}
+    return bad
 
 
 def sde_level(ctx, builds, stats):
@@ -1265,6 +1464,15 @@ def replay(ctx, path):
             print(err[-3000:])
         fail = rc != 0 or a != b or "ThreadSanitizer" in err
         print("REPRODUCED" if fail else "not reproduced (the failure may need another schedule: repeat, or vary C02_PERTURB_SEED)")
+        return 1 if fail else 0
+    if kind == "tool-big":
+        stats = {}
+        builds = build_tools(ctx, stats)
+        n = len(ctx.violations)
+        big_case(ctx, builds, stats)
+        print(stats.get("big"))
+        fail = len(ctx.violations) > n
+        print("REPRODUCED" if fail else "not reproduced")
         return 1 if fail else 0
     if kind == "sde":
         stats = {}
